@@ -39,6 +39,20 @@ def inventory(units, adts):
                 continue
             for n, cstack in C.with_conditions(C.fn_body(f)):
                 mt = None
+                if n.get("k") == "match" and (n.get("sadt") or "").endswith("option::Option"):
+                    # `match opt { None => .., Some(P1) => .., Some(_) => .. }` selects by the payload's variants: view it as the match on the payload
+                    subs = []
+                    for a_ in n["arms"]:
+                        p_ = a_["pat"]
+                        if p_.get("k") == "variant" and p_.get("v") == "Some" and len(p_.get("sub") or []) == 1:
+                            subs.append({"pat": p_["sub"][0], "g": a_.get("g"), "b": a_["b"]})
+                        elif p_.get("k") in ("wild", "bind"):
+                            subs.append({"pat": {"k": "wild"}, "g": a_.get("g"), "b": a_["b"]})
+                    adt_ = next((x_["pat"].get("adt") for x_ in subs if x_["pat"].get("k") == "variant"), None)
+                    if adt_ and enum_of(adt_):
+                        s0 = C.strip(n["s"])
+                        n = {"k": "match", "sadt": adt_, "ln": n.get("ln"), "arms": subs,
+                             "s": s0 if s0.get("k") != "mcall" else {"k": "mcall", "m": "unwrap", "recv": n["s"], "a": []}}
                 if n.get("k") == "match" and enum_of(n.get("sadt")):
                     mt = n
                 elif n.get("k") == "if":
@@ -198,7 +212,13 @@ def run(ck, facts):
         ck.bad("R1", "floor", "only %d shape-selected panic arms found (the extractor lost sight of the backends)" % len(inv))
 
     # ---------------- R1 (cont.) every other panic-family site (condition-guarded, let-else on non-HIR values, wild arms of matches on Option/tuples) is triaged too
-    cspec = json.load(open(os.path.join(C.VERIF, "spec", "cond_panics.json")))["sites"]
+    def norm_msg(m_):
+        # the message identifies the site; how its placeholders are spelled (`{}` + argument, `{x}`, `{x:?}` with x renamed) does not
+        return re.sub(r"\{\{|\}\}|\{[^{}]*\}?", lambda mm: mm.group(0) if mm.group(0) in ("{{", "}}") else "{}", re.sub(r"\s+", " ", m_))
+    cspec = {}
+    for k_, v_ in json.load(open(os.path.join(C.VERIF, "spec", "cond_panics.json")))["sites"].items():
+        a_, b_, c_ = k_.split("/", 2)
+        cspec["%s/%s/%s" % (a_, b_, norm_msg(c_))] = v_
     found_c = {}
     for f in tool.fn_list:
         if "hir" not in f or f.get("exp") or f.get("dk") == "Closure":
@@ -209,7 +229,7 @@ def run(ck, facts):
         for n in C.walk(C.fn_body(f)):
             if n.get("k") == "macro" and n.get("name") in PANIC_MACROS and (pth, n.get("ln")) not in COVERED:
                 msg = (C.macro_strings(n) or [""])[0]
-                k = "%s/%s/%s" % (pth, n["name"], re.sub(r"\s+", " ", msg)[:48])
+                k = "%s/%s/%s" % (pth, n["name"], norm_msg(msg)[:48])
                 found_c.setdefault(k, []).append(C.loc(f, n.get("ln")))
 
     def loose_c(k_):
@@ -221,6 +241,12 @@ def run(ck, facts):
         by_loose_c.setdefault(loose_c(k_), []).append(k_)
     for k, locs_ in sorted(found_c.items()):
         t = cspec.get(k)
+        if not t:
+            pk = [c for c in cspec if c.rsplit("/", 1)[0] == k.rsplit("/", 1)[0] and k.split("/", 2)[2].startswith(c.split("/", 2)[2].rstrip("{ "))]
+            pk = sorted((c for c in pk if c.split("/", 2)[2].strip()), key=len, reverse=True)
+            if pk:
+                k = pk[0]
+                t = cspec[k]
         extra_ = 0
         if not t:
             cands = [c for c in by_loose_c.get(loose_c(k), []) if c not in found_c] or [c for c in by_loose_c.get(loose_c(k), []) if cspec[c]["class"] != "finding"]
@@ -265,6 +291,53 @@ def run(ck, facts):
     tested = {n["n"] for n in C.walk(C.fn_body(lt)) if n.get("k") == "field" and C.strip(n["e"]).get("k") == "mcall" and C.strip(n["e"]).get("m") == "attrs_supported"}
     for flag in ("option", "callbacks", "traits", "static_slices"):
         ck.expect(flag in tested, "R2", "gate-tests/" + flag, "", "lower_type no longer consults attrs_supported().%s" % flag, C.loc(lt))
+
+    # the attribute gate drops a special-method marker a backend does not support when the marker is gated on `auto` ("where supported"): the arm of
+    # Attrs::from_ast that stores the parsed marker is preceded by (or is itself under) a guard that asks the backend's support record about the parsed kind,
+    # and that predicate answers every SpecialMethod variant with one of the record's flags.  The triage class `impossible-by-gate` of the backends'
+    # "unknown special method" arms rests on it.
+    fa = core.fn("hir::attrs::Attrs::from_ast")
+    SMP = "hir::attrs::SpecialMethod"
+    gate_ok, gate_fn, n_store = False, None, 0
+
+    def stores_marker(node):
+        return any(x.get("k") == "assign" and C.strip(x["l"]).get("k") == "field" and C.strip(x["l"]).get("n") == "special_method" for x in C.walk(node))
+    for m_ in C.walk(C.fn_body(fa)):
+        if m_.get("k") != "match" or not any((C.callee(x) or "").endswith("SpecialMethod::from_path_and_meta") for x in C.walk(m_["s"])):
+            continue
+        for i_, a_ in enumerate(m_["arms"]):
+            if not stores_marker(a_["b"]):
+                continue
+            n_store += 1
+            for j_, b_ in enumerate(m_["arms"][:i_ + 1]):
+                g_ = b_.get("g")
+                if not g_:
+                    continue
+                binds_ = set(C.pat_bind_ids(b_["pat"]))
+                for x in C.walk(g_):
+                    if x.get("k") in ("mcall", "call") and "BackendAttrSupport" in (x.get("p") or "") and any(
+                            y.get("k") == "local" and y.get("id") in binds_ for a2 in (x.get("a") or []) for y in C.walk(a2)):
+                        negated = any(y.get("k") == "un" and y.get("op") == "Not" and any(z is x for z in C.walk(y["e"])) for y in C.walk(g_))
+                        if (j_ < i_ and negated and not stores_marker(b_["b"])) or (j_ == i_ and not negated):
+                            gate_ok = True
+                            gate_fn = core.norm.get(C.norm_path(x.get("p") or ""))
+    ck.expect(n_store >= 1 and gate_ok, "R2", "gate/special-method-support", "the marker is stored only after the support record was asked about it",
+              "Attrs::from_ast stores a special-method marker (constructor, add, iterator, ...) without asking the backend's support record about it: `#[diplomat::attr(auto, add)]` "
+              "marks the method in a backend that declares arithmetic = false, and that backend's method generator ends in its `unknown special method` arm "
+              "(check_string is keyed by support names, never by marker names)", C.loc(fa))
+    if gate_fn is not None and "hir" in gate_fn:
+        sm_adt = adts.get(core.adt(SMP)["path"])
+        flags_ = {fl["name"] for fl in core.adt("hir::attrs::BackendAttrSupport")["variants"][0]["fields"] if fl["ty"] == "bool"}
+        mm = [x for x in C.walk(C.fn_body(gate_fn)) if x.get("k") == "match" and (x.get("sadt") or "").endswith(SMP)]
+        answered = {}
+        if len(mm) == 1:
+            for v_, hits in C.decision_table(mm[0], adts):
+                arm_i = next((i for i, cond in hits if not cond), None)
+                b_ = C.strip(mm[0]["arms"][arm_i]["b"]) if arm_i is not None else {}
+                answered[v_.variant] = b_.get("n") if b_.get("k") == "field" and C.strip(b_["e"]).get("k") == "local" and b_.get("n") in flags_ else None
+        want_v = {v["name"] for v in sm_adt["variants"]}
+        ck.expect(set(answered) == want_v and all(answered.values()), "R2", "gate/special-method-support/total", str(answered),
+                  "the support predicate does not answer every SpecialMethod variant with a flag of BackendAttrSupport: %s" % {k_: v_ for k_, v_ in answered.items() if not v_} , C.loc(gate_fn))
 
     # ---------------- R3 HIR-data-dependent unwrap/expect inventory
     import flow
@@ -528,9 +601,14 @@ def run(ck, facts):
             continue
         sites = [n for n in C.walk(C.fn_body(f)) if n.get("k") == "mcall" and n.get("m") in ("unwrap", "expect") and C.strip(n["recv"]).get("k") == "mcall"
                  and C.strip(n["recv"]).get("m") in ("first", "last") and "[" in (C.strip(n["recv"]).get("rty") or "")]
+        fkey = C.norm_path(f["path"]).replace("diplomat_tool::", "")
+        # `let [x] = list[..] else { diverge }` takes the element and tests the length in one construct: nothing to weaken
+        slice_lets = [n for n in C.walk(C.fn_body(f)) if n.get("k") == "letst" and n.get("els") is not None and '"k": "slice"' in json.dumps(n.get("pat"))]
+        if slice_lets:
+            n6 += 1
+            ck.ok("R6", "%s/slice-pattern" % fkey, "element taken by a refutable slice pattern with a diverging else", C.loc(f, slice_lets[0].get("ln")))
         if not sites:
             continue
-        fkey = C.norm_path(f["path"]).replace("diplomat_tool::", "")
         conds = len_conditions(f)
         if conds:
             n6 += 1
